@@ -201,11 +201,11 @@ func TestC09(t *testing.T) {
 	defer r.Close()
 	r.Meta(vc.Meta{
 		Level:       "exploration",
-		Rule:        "case = one scenario in a synctest bubble (virtual clock = the component's own clock): request size sequences with every remainder mod send_batch_size and mod send_batch_max_size, (size,max,timeout) over {0,1,2,3,7,100} x {0,size,size+1,2size-1} x {0,1ms,1s}, arrivals placed just before / at / just after timer expiry, bursts and long silences, concurrent callers; hook delays only BEFORE the enqueue (acceptance = the instant the request entered the shard's channel). Oracle: every export has 1 <= size <= send_batch_max_size; with unlimited concurrency and no cancellation every item is exported no later than accepted+timeout when a timer exists (timeout>0 and send_batch_size>0), else at the very instant it was accepted; quiescence invariant computed offline: the last event at each distinct virtual instant is a quiescent state in which every shard buffers < send_batch_size items (0 without timer). Sizes are also asserted in real-time stress runs. Non-trivial = scenario with >=1 split (batch of exactly max size) or >=1 item that waited for the timer. Distinct = (config, request sizes and arrival instants).",
-		Assumptions: append([]string{"deadline and quiescence clauses are evaluated only with max_concurrency=0 (the property's proviso) and without cancellations"}, bpAssumptions...),
+		Rule:        "case = one scenario in a synctest bubble (virtual clock = the component's own clock): request size sequences with every remainder mod send_batch_size and mod send_batch_max_size, (size,max,timeout) over {0,1,2,3,7,100} x {0,size,size+1,2size-1} x {0,1ms,1s}, arrivals placed just before / at / just after timer expiry, bursts and long silences, concurrent callers; hook delays only BEFORE the enqueue (acceptance = the instant the request entered the shard's channel). Oracle: every export has 1 <= size <= send_batch_max_size; with unlimited concurrency and no cancellation every item is exported no later than accepted+timeout when a timer exists (timeout>0 and send_batch_size>0), else at the very instant it was accepted; with max_concurrency = k > 0 (layer limited-concurrency) the deadline clause binds every item during whose whole window [accepted, deadline] fewer than k exports (all shards together) were in flight (the proviso, decided from the export begin/end events), including items that are never exported although the scenario went on beyond their deadline; quiescence invariant (unlimited concurrency only) computed offline: the last event at each distinct virtual instant is a quiescent state in which every shard buffers < send_batch_size items (0 without timer). Sizes are also asserted in real-time stress runs. Non-trivial = scenario with >=1 split (batch of exactly max size) or >=1 item that waited for the timer. Distinct = (config, request sizes and arrival instants).",
+		Assumptions: append([]string{"the quiescence clause is evaluated only with max_concurrency=0; the deadline clause with max_concurrency>0 exempts every item in whose window the limiter was full at some instant (the property's proviso); no cancellations in the timing layers"}, bpAssumptions...),
 		Gates: map[string]map[string]int{
-			"quick":    {"scenarios": 600, "items_deadline_checked": 5000, "items_that_waited_for_the_timer": 300, "batches_exactly_max_size": 200, "quiescent_states_checked": 3000, "quiescent_states_with_buffered_items": 200},
-			"thorough": {"scenarios": 20000, "items_deadline_checked": 150000, "items_that_waited_for_the_timer": 10000, "batches_exactly_max_size": 6000, "quiescent_states_checked": 100000, "quiescent_states_with_buffered_items": 6000},
+			"quick":    {"scenarios": 600, "items_deadline_checked": 5000, "items_that_waited_for_the_timer": 300, "batches_exactly_max_size": 200, "quiescent_states_checked": 3000, "quiescent_states_with_buffered_items": 200, "items_deadline_checked_under_a_concurrency_limit": 5000, "failed_exports_under_a_concurrency_limit": 200},
+			"thorough": {"scenarios": 20000, "items_deadline_checked": 150000, "items_that_waited_for_the_timer": 10000, "batches_exactly_max_size": 6000, "quiescent_states_checked": 100000, "quiescent_states_with_buffered_items": 6000, "items_deadline_checked_under_a_concurrency_limit": 100000, "failed_exports_under_a_concurrency_limit": 5000},
 		},
 	})
 	e := r.Env
@@ -247,6 +247,48 @@ func TestC09(t *testing.T) {
 		c.FP(sc.Cfg.String(), strings.Join(sizes, ","))
 		c.Nontrivial(nt)
 		if c.Idx < 40 {
+			c.Sample(sc.Describe())
+		}
+	})
+	// the proviso made precise: with max_concurrency = k > 0 the deadline clause still binds every item
+	// during whose whole window fewer than k exports (of any shard) were in flight; failing and slow exports
+	// fill and free the limiter over and over
+	r.Layer("limited-concurrency", e.Pick(300, 8000), func(c *vc.Case) {
+		sc := GenScenario(c.R, Profile{Sig: -1, Keys: c.R.IntN(5) == 0, Cancels: false, Fails: true, HookMode: "pre-enqueue", EarlyReturn: -1})
+		if sc.Cfg.MaxConcurrency == 0 || sc.Cfg.MaxConcurrency > 2 {
+			sc.Cfg.MaxConcurrency = uint32(1 + c.R.IntN(2))
+		}
+		if c.Idx%3 != 0 {
+			// mostly quick exports: the limiter is free most of the time, so most items stay bound by the clause
+			for i := range sc.Latency {
+				sc.Latency[i] = pickD(c.R, 0, 0, time.Microsecond, 20*time.Microsecond)
+			}
+		}
+		sc.Label = "limited-concurrency"
+		run := NewRun(sc, c.R.Uint64())
+		var err error
+		runBubble(t, func() { _, err = run.Exec() })
+		ix := BuildIndex(run)
+		if err != nil {
+			c.Inconclusive("scenario could not run: " + err.Error())
+			return
+		}
+		observeCommon(c, run, ix)
+		judge(c, "C09", run, ix, true)
+		var sizes []string
+		for _, q := range sc.Reqs {
+			sizes = append(sizes, fmt.Sprintf("%d@%v", q.items, q.At))
+		}
+		failed := 0
+		for _, n := range ix.expOrder {
+			if x := ix.exports[n]; x.end != nil && x.end.Err != nil {
+				failed++
+			}
+		}
+		c.Count("failed_exports_under_a_concurrency_limit", int64(failed))
+		c.FP("limited", sc.Cfg.String(), strings.Join(sizes, ","), fmt.Sprint(sc.Fail))
+		c.Nontrivial(failed > 0)
+		if c.Idx < 12 {
 			c.Sample(sc.Describe())
 		}
 	})
